@@ -602,3 +602,42 @@ def arrconst(tier, seed, params):
                 out.append("op=constpos form=%s n=%d pos=static" % (form, n))
                 out.append("op=constpos form=%s n=%d pos=constfn" % (form, n))
     return out
+
+
+CONST_SMALL = [0, 1, 2, 3, 4, 5, 7, 8]
+CONST_LATTICE = [0, 1, 2, 3, 4, 5, 6, 7, 8, 16, 17, 33, 64, 255, 256]
+CONST_TYS = ["u8", "u32", "t2", "unit"]
+
+
+def constapi(tier, seed, params):
+    out = []
+    for ty in CONST_TYS:
+        for n in CONST_SMALL + [16, 17, 33]:
+            if n in CONST_SMALL or tier == "thorough":
+                ls = range(0, 3 * n + 3)
+            else:
+                ls = sorted(set([0, 1, n - 1, n, n + 1, 2 * n, 2 * n + 1, 3 * n, 3 * n + 2]))
+            for ln in ls:
+                for fn in ("chunks_from_slice", "chunks_from_slice_mut"):
+                    if n == 0 and ln > 0 and (ty not in ("u8", "unit") or ln > 2):
+                        continue
+                    out.append("op=const fn=%s n=%d len=%d ty=%s" % (fn, n, ln, ty))
+        for n in CONST_LATTICE:
+            for fn in ("from_slice", "from_mut_slice"):
+                out.append("op=const fn=%s n=%d len=%d ty=%s" % (fn, n, n, ty))
+            for fn in ("len", "as_slice", "as_mut_slice", "uninit", "from_array"):
+                out.append("op=const fn=%s n=%d ty=%s" % (fn, n, ty))
+        for n in (0, 1, 2, 3, 5, 8, 33):
+            for ln in sorted(set([0, max(n - 1, 0), n, n + 1, 3 * n + 2])):
+                for fn in ("try_from_slice", "try_from_mut_slice"):
+                    out.append("op=const fn=%s n=%d len=%d ty=%s" % (fn, n, ln, ty))
+                if ln != n and (ty == "u8" or tier == "thorough") and n in (0, 1, 3, 8):
+                    out.append("op=const fn=from_slice n=%d len=%d ty=%s" % (n, ln, ty))
+                    out.append("op=const fn=from_mut_slice n=%d len=%d ty=%s" % (n, ln, ty))
+        for n in CONST_SMALL:
+            for k in range(0, 4):
+                for fn in ("slice_from_chunks", "slice_from_chunks_mut", "from_chunks", "from_chunks_mut", "into_chunks", "into_chunks_mut"):
+                    out.append("op=const fn=%s n=%d k=%d ty=%s" % (fn, n, k, ty))
+    out.append("op=const fn=from_array n=1024 ty=u8")
+    out.append("op=const fn=uninit n=1024 ty=u32")
+    return out
